@@ -30,7 +30,7 @@ def cases(ctx):
         h, w = (rng.randint(1, 24), rng.randint(1, 24)) if big else (rng.randint(1, 7), rng.randint(1, 7))
         p = rng.choice([0.1, 0.3, 0.5, 0.7, 0.9, 1.0, 0.0])
         vals = [1 if rng.random() < p else 0 for _ in range(h * w)]
-        yield {"shape": [h, w], "vals": vals, "layout": rng.choice(LAYOUTS), "dtype": rng.choice(["bool", "bool", "uint8", "int32"]),
+        yield {"shape": [h, w], "vals": vals, "layout": rng.choice(LAYOUTS), "dtype": rng.choice(["bool", "bool", "uint8", "int32", "int8", "uint16", "float32", "int64"]),
                "all": False}
     # solid blocks with a few one-pixel holes: the pockets between the loops that form around the holes erode one or two pixels
     # per pass, so these need more passes than either side is long (any cap on the number of passes shows here)
